@@ -52,6 +52,19 @@ def clone_rec(src, ctx, emit, C):
     return r
 
 
+_TMP = []
+
+
+def tmpdir():
+    if not _TMP:
+        import atexit
+        import shutil
+        import tempfile
+        _TMP.append(tempfile.mkdtemp(prefix='verif-sess-'))
+        atexit.register(shutil.rmtree, _TMP[0], ignore_errors=True)
+    return _TMP[0]
+
+
 def derive(C, ctx, how, rng):
     if how == 'copy':
         return ctx.copy() if rng.random() < 0.5 else copy.copy(ctx)
@@ -59,6 +72,21 @@ def derive(C, ctx, how, rng):
         return pickle.loads(pickle.dumps(ctx, protocol=rng.choice([2, pickle.HIGHEST_PROTOCOL])))
     if how == 'definition':
         return C.Context(*ctx.definition())
+    if how in ('table', 'cxt', 'csv'):
+        labels = list(ctx.objects) + list(ctx.properties)
+        if not all(x.isascii() and x.isalnum() for x in labels):
+            return C.Context(*ctx.definition())         # labels the text format cannot carry: same table, no lattice
+        if rng.random() < 0.5:
+            return C.Context.fromstring(ctx.tostring(frmat=how), frmat=how)
+        path = os.path.join(tmpdir(), f'sess.{how}' if how != 'table' else 'sess.txt')
+        ctx.tofile(path, frmat=how)
+        return C.Context.fromfile(path, frmat=how)
+    if how == 'literal':
+        return C.Context.fromstring(ctx.tostring(frmat='python-literal'), frmat='python-literal')
+    if how == 'json':
+        path = os.path.join(tmpdir(), 'sess.json')
+        ctx.tojson(path, ignore_lattice=None)
+        return C.Context.fromjson(path)
     if how == 'dict':
         d = ctx.todict(ignore_lattice=None)          # the lattice travels iff it has been computed
         new = C.Context.fromdict(copy.deepcopy(d))
